@@ -27,6 +27,9 @@ from gbasis.integrals.point_charge import point_charge_integral  # noqa: E402
 class Q:
     def __init__(self, name, fn, axes=None, density=False, tol=1e-9, eri=False, needs=(), order=0):
         self.order = order  # density-type: highest total derivative order entering the field (None: ESP)
+        # Coulomb-type integrals are only claimed to 1e-8 / 1e-6 of their Cauchy-Schwarz scale (C03, C04): two evaluations
+        # of the same element can differ by that much of the NATURAL magnitude, not of the element itself
+        self.floor = 1.0 if (eri or "point_charge" in name or "nuclear" in name) else 1e-3
         self.name = self.__name__ = name
         self.fn = fn  # (basis, env, transform) -> ndarray ; density-type: (basis, gamma, env, transform)
         self.axes = axes
@@ -187,7 +190,7 @@ class Scales:
         if self._pf is None:
             self._pf = per_function_scales(self.basis, self.env)
         try:
-            return self._nat(q, base)
+            return self._nat(q, base) * (q.floor / 1e-3)
         except (ValueError, IndexError):  # malformed library output: fall back to the largest element
             return None
 
